@@ -244,6 +244,20 @@ class Env:
                 return {"k": "Chan", "c": idx, "unstable": True}
             if len(self.chan_owner) <= idx:
                 self.chan_owner.append((op["i"], op["a"]))
+                if idx % 3 == 0:
+                    # somebody subscribed first whose filter is broken (raises for every event): that listener
+                    # fails when it looks at its first event; the dispatcher and the other listeners notice nothing
+                    async def broken_listener(sig=sig):
+                        def broken(ev):
+                            raise ZeroDivisionError("broken filter")
+                        try:
+                            async with sig.stream_events(broken, max_queue_size=100000) as st:
+                                async for _ in st:
+                                    pass
+                        except ZeroDivisionError:
+                            pass
+                    self.tg.start_soon(broken_listener)
+                    await settle()
             return {"k": "Chan", "c": idx}
         if k in ("Subscribe", "Wait"):
             c = Consumer(len(self.cons))
